@@ -148,13 +148,14 @@ class RefOvld:
             if m.body in ("cn", "next"):
                 visited.add(m.id)
                 continue
-            if m.body == "cnv":
+            if m.body in ("cnv", "cnv2"):
                 v = m.env["__v"]
-                if self.applicable(m, (v,), {}):
+                nargs = (v,) if m.body == "cnv" else tuple(v)
+                if self.applicable(m, nargs, {}):
                     # "had the current method and everything ranked above it not been registered":
                     # everything in the ranks down to m's own goes; if m shares its rank for the new
                     # arguments the statement does not say what happens to its peers: abstain
-                    lays = self.layers((v,), {})
+                    lays = self.layers(nargs, {})
                     k = next(i for i, lay in enumerate(lays) if m in lay)
                     if any(len(lay) > 1 for lay in lays[: k + 1]):
                         # (also when a rank above m is tied: a fresh call with these arguments
@@ -163,7 +164,7 @@ class RefOvld:
                     visited = {o.id for lay in lays[: k + 1] for o in lay}
                 else:
                     visited = set()  # m not applicable to the new args: a fresh call
-                cur_args, cur_kwargs = (v,), {}
+                cur_args, cur_kwargs = nargs, {}
                 continue
             return ("ret", tuple(trace))
         return ("diverge", tuple(trace))
